@@ -54,6 +54,7 @@ type Unit struct {
 	condAxioms   []condAxiom
 	lastRawArgs  []Value
 	oldRebased   bool
+	retOrd       map[*ast.ReturnStmt]int
 	selfInvKey   string // receiver type with an object invariant (methods of T)
 }
 
